@@ -89,7 +89,7 @@ def make_aids(G, rng, T):
 
     def bounds():
         if G.bpoly is not None and rng.random() < 0.5:
-            return ['P', [[float(p[0]), float(p[1])] for p in G.bpoly]]
+            return ['P', [[float(p[0]), float(p[1])] for p in G.bpoly], 'own']
         m = rng.choice([0.0, 0.0, 0.01]) * G.scale
         b = G.bounds
         return ['R', [b[0] - m, b[1] - m, b[2] + m, b[3] + m]]
@@ -102,6 +102,9 @@ def make_aids(G, rng, T):
         {'name': 'subset', 'columns': subset()},
         {'name': 'qtree', 'qtree': True},
     ]
+    if G.bpoly is not None:
+        # the geometry's OWN boundary polygon as the bounding polygon (what fit_columns etc. pass): always tried
+        aids.append({'name': 'own-boundary', 'bounds': ['P', [[float(p[0]), float(p[1])] for p in G.bpoly], 'own']})
     combo = {'name': 'combo'}
     if rng.random() < 0.6: combo['guess'] = rng.choice([right, nbr, far])
     if rng.random() < 0.5: combo['bounds'] = bounds()
@@ -115,6 +118,10 @@ def bounds_ok(G, aid, posq, T):
     """premise 'the bounding polygon contains the answer' (exact)"""
     b = aid.get('bounds')
     if b is None or T is None: return True
+    if len(b) > 2 and b[2] == 'own' and not G.spec.get('delete'):
+        # geo.boundary_polygon of a geometry without deleted columns (one piece, no holes) bounds every column of the
+        # geometry: the premise holds by construction, whatever polygon the implementation computed
+        return True
     if b[0] == 'R':
         x0, y0, x1, y1 = [fr(v) for v in b[1]]
         return x0 <= posq[0] <= x1 and y0 <= posq[1] <= y1
